@@ -41,7 +41,18 @@ RULE = ("Hypothesis-drawn real height maps (white noise, smooth band-limited noi
         "clauses; non-trivial there = a PSD-side operation after a synthesis or a precision-32 call on the same grid.  Scalar "
         "parameters (dx, band edges, wavelength) are handed over as Python float / int, numpy scalar or 0-d array (0-d arrays must "
         "come back unchanged), the incident angle of total_integrated_scatter also as a vector of angles (each entry checked "
-        "against the formula), psd() is called positionally, by keyword and with the window omitted.")
+        "against the formula), psd() is called positionally, by keyword and with the window omitted.  Requested RMS of the synthesis: "
+        "usual values, exactly 0 (Python float / int, numpy scalar, 0-d array: every valid sample must be exactly 0), and 1e-200 .. 1e200 "
+        "(the oracle forms the RMS on z / rms); model parameters a = 1e-30 .. 1e30, c = 0 (white) .. 8, size 1e-3 .. 1e4 mm; a second "
+        "synthesis after a zero request.  In-place edits: on the method routes of psd / bandlimited_rms / total_integrated_scatter a "
+        "drawn list of numpy edits (x2, x1e-3, x1e3, reference subtracted, offset added, pixels zeroed, array overwritten, ufunc with "
+        "out=; integer maps: //2, rolled) is applied to the public `.data` array of the SAME Interferogram after its first result, and "
+        "the next result must be that of the data the object holds now (same oracle, buckets ...:after-inplace-edit).  Clause "
+        "object_history: a state machine over ONE Interferogram - psd / band-limited RMS / TIS interleaved with such in-place edits, a "
+        "new array or a new dx assigned through the public attributes, the object's own remove_piston / remove_tiptilt / fill, reads "
+        "of its scalar statistics, and overwriting the arrays of a PSD object returned earlier; every spectral call is checked against "
+        "the oracle for the data and dx the object holds at that moment; non-trivial there = a spectral call after a change since the "
+        "previous spectral call.")
 ASSUMPTIONS = ["numpy.fft.fft2 / fftfreq / fftshift are correct", "make_window() returns the window psd() documents for a window name / None "
                "(the oracle needs the window itself to form the window-weighted mean square)",
                "a real NumPy 1.x runtime is not installed: only the trapz/trapezoid API difference is emulated through prysm.mathops' shim",
@@ -248,6 +259,133 @@ def shape_labels(ctx, shape):
     ctx.label('square' if ny == nx else 'nonsquare', 'parity:%s%s' % ('eo'[ny % 2], 'eo'[nx % 2]))
 
 
+# ---- the public data array of an object edited in place between two calls ---------------------------
+EDITS = ['scale2', 'scale1e-3', 'scale1e3', 'subtract-ref', 'add-offset', 'zero-pixels', 'overwrite', 'ufunc-out']
+
+
+def edit_in_place(ifg, how, seed):
+    """edit `ifg.data` the way users do (unit conversion, reference subtraction, bad-pixel zeroing): through numpy, in place, the
+    array object stays the same.  Integer maps get the edits that are valid for their dtype.  Returns the label of what was done."""
+    d = ifg.data
+    r = U.rng_of(seed, 9)
+    if d.dtype.kind != 'f':
+        how = {'zero-pixels': 'zero-pixels', 'overwrite': 'overwrite'}.get(how, 'int-halve' if how.startswith('scale') else 'int-roll')
+    if how == 'scale2':
+        ifg.data *= 2.0
+    elif how == 'scale1e-3':
+        ifg.data *= 1e-3         # nm -> um
+    elif how == 'scale1e3':
+        ifg.data *= 1e3
+    elif how == 'subtract-ref':
+        ifg.data -= r.standard_normal(d.shape) * (float(np.abs(d).max()) or 1.0) * 0.5
+    elif how == 'add-offset':
+        ifg.data += (float(np.abs(d).max()) or 1.0) * 1.5
+    elif how == 'zero-pixels':
+        m = r.uniform(size=d.shape) < 0.3
+        m[d.shape[0] // 2, d.shape[1] // 2] = True
+        ifg.data[m] = 0
+    elif how == 'overwrite':
+        new = r.standard_normal(d.shape) * (float(np.abs(d).max()) or 1.0)
+        ifg.data[...] = new if d.dtype.kind == 'f' else r.integers(0, 100, d.shape).astype(d.dtype)
+    elif how == 'ufunc-out':
+        np.multiply(d, 0.25, out=d)
+    elif how == 'int-halve':
+        ifg.data //= 2
+    elif how == 'int-roll':
+        ifg.data[...] = np.roll(d, (1, 2), axis=(0, 1)) // 3
+    else:
+        raise ValueError(how)
+    if ifg.data is not d:
+        raise RuntimeError('harness: the in-place edit %s replaced the array object' % how)
+    return how
+
+
+def method_psd(ctx, ifg, tag, what):
+    """Interferogram.psd() of the data / dx the object holds *now* against the oracle (automatic window); returns the PSD object"""
+    h = np.asarray(ifg.data)
+    dx = float(ifg.dx)
+    keep = h.copy()
+    w = window_array(ctx, 'auto', None, h, dx)
+    rt = rtol_of(h.dtype, w.dtype)
+    p = ctx.call(ifg.psd)
+    ux, uy, P = ctx.call(getattr, p, 'x'), ctx.call(getattr, p, 'y'), p.data
+    args_unchanged(ctx, 'Interferogram.psd', data=(h, keep))
+    verify_psd(ctx, h.shape, dx, h.astype(np.float64), w.astype(np.float64), ux, uy, P, rt, what, tag)
+    return p
+
+
+def method_band(ctx, ifg, q, lo_kind, hi_kind, form, tag, api='native'):
+    """Interferogram.bandlimited_rms() over one drawn band and over the full band, of the data / dx the object holds *now*:
+    each within [trapezoid sum, plain sum] of the reference PSD samples in the band (full band: up to the windowed mean square)"""
+    h = np.asarray(ifg.data)
+    dx = float(ifg.dx)
+    ny, nx = h.shape
+    hq = h.astype(np.float64)
+    w = window_array(ctx, 'auto', None, h, dx).astype(np.float64)
+    Pref = ref_psd(hq, w, dx)
+    fx, fy = ref_axes((ny, nx), dx)
+    R = np.hypot(fx, fy)
+    cell = 1.0 / (nx * dx) / (ny * dx)
+    weights = np.outer(_trap_w(ny), _trap_w(nx))
+    (a, b, c), rmax = _edges(R, q)
+    lo = 0.0 if lo_kind == 'zero' else a
+    hi = {'edge': c, 'none': None, 'beyond': 2.5 * rmax}[hi_kind]
+    hi_eff = c if hi is not None and hi < rmax else math.inf
+    total = float(Pref.sum()) * cell
+    tol = 1e-9 * total
+    out = {}
+    for name, (fl, fh, fh_eff) in (('band', (lo, hi, hi_eff)), ('full', (0.0, None, math.inf))):
+        if form == 'period' and (fl > 0 or fh is not None):
+            kw = {'wllow': None if fh is None else 1.0 / fh, 'wlhigh': None if fl == 0 else 1.0 / fl}
+        else:
+            kw = {'flow': fl, 'fhigh': fh}
+        with numpy_generation(api):
+            v = ctx.call(ifg.bandlimited_rms, **kw)
+        ctx.require(np.ndim(v) == 0 and bool(np.isfinite(v)) and v >= 0, 'brms:value' + tag, 'bandlimited_rms(%r) returned %r' % (kw, v))
+        inband = (R >= fl) & (R <= fh_eff)
+        hi_b = float((Pref * inband).sum()) * cell
+        lo_b = float((Pref * inband * weights).sum()) * cell
+        v2 = float(v) ** 2
+        ctx.require(lo_b - tol <= v2 <= hi_b + tol, 'brms:%s' % ('full-band' if name == 'full' else 'band-value') + tag,
+                    'Interferogram.bandlimited_rms(%r)^2 = %.12g outside [%.12g, %.12g] (reference PSD samples of the data the object holds now, in the band, '
+                    'x df_x df_y, minus / without the trapezoid half weights); %s map, dx=%g, windowed mean square %.12g'
+                    % (kw, v2, lo_b, hi_b, (ny, nx), dx, total))
+        out[name] = v2
+    return out
+
+
+def method_tis(ctx, ifg, q, limit, ang, tag, api='native'):
+    """Interferogram.total_integrated_scatter(lambda, angle) of the data / dx the object holds *now* against its formula"""
+    h = np.asarray(ifg.data)
+    dx = float(ifg.dx)
+    ny, nx = h.shape
+    hq = h.astype(np.float64)
+    w = window_array(ctx, 'auto', None, h, dx).astype(np.float64)
+    Pref = ref_psd(hq, w, dx)
+    fx, fy = ref_axes((ny, nx), dx)
+    R = np.hypot(fx, fy)
+    cell = 1.0 / (nx * dx) / (ny * dx)
+    weights = np.outer(_trap_w(ny), _trap_w(nx))
+    mids, rmax = _mids(R)
+    f_lim = mids[q * len(mids) // (10 ** 6 + 1)] if limit == 'edge' else 3.0 * rmax
+    wvl = 1000.0 / f_lim
+    with numpy_generation(api):
+        tis = ctx.call(ifg.total_integrated_scatter, wvl, ang)
+    ctx.require(np.ndim(tis) == 0 and bool(np.isfinite(tis)), 'tis:value' + tag, 'total_integrated_scatter returned %r' % (tis,))
+    inband = R <= f_lim
+    hi_b = float((Pref * inband).sum()) * cell
+    lo_b = float((Pref * inband * weights).sum()) * cell
+    tol = 1e-9 * float(Pref.sum()) * cell
+
+    def formula(s2):
+        return 1.0 - math.exp(-(4 * math.pi * math.cos(math.radians(ang)) * math.sqrt(max(s2, 0.0)) / wvl) ** 2)
+    t_lo, t_hi = formula(lo_b - tol), formula(hi_b + tol)
+    slack = 1e-9 * max(t_hi, 1e-300) + 1e-15
+    ctx.require(t_lo - slack <= float(tis) <= t_hi + slack, 'tis:band:' + limit + tag,
+                'TIS(lambda=%.6g um, angle %g) = %.12g on the %s map the object holds now, dx=%g; the formula with the band-limited RMS over [0, 1/lambda] gives [%.12g, %.12g]'
+                % (wvl, ang, float(tis), (ny, nx), dx, t_lo, t_hi))
+
+
 # ---- clause 1: normalisation, whole array, axes ----------------------------------------------------
 THIN = [None] * 8 + ['1xN', 'Nx1', '3xN', 'Nx3', '1x1']
 
@@ -265,7 +403,8 @@ def psd_fields(tier):
             'route': st.sampled_from(['function', 'function', 'method']),
             'hdtype': st.sampled_from(HDTYPES), 'hlayout': U.layouts, 'wlayout': U.layouts,
             'again': st.sampled_from([False, False, True]), 'dxform': st.sampled_from(SCALARS),
-            'call': st.sampled_from(['positional', 'positional', 'keyword', 'window-omitted'])}
+            'call': st.sampled_from(['positional', 'positional', 'keyword', 'window-omitted']),
+            'edit': st.one_of(st.none(), st.lists(st.sampled_from(EDITS), min_size=1, max_size=3))}
 
 
 def strat_psd(tier):
@@ -351,16 +490,24 @@ def check_psd(case, ctx):
     dxarg = scalar_form(dx, case.get('dxform', 'float'))
     ctx.label('dx:' + type(dxarg).__name__, 'call:' + (case.get('call', 'positional') if route == 'function' else 'method'))
     what = 'window %s, map dtype %s layout %s' % (win, h.dtype, hlayout)
+    # in-place edits of the object's data between calls: on the method route, for maps with at least 4 samples per axis
+    edits = list(case.get('edit') or []) if (route == 'method' and thin is None) else []
+
+    made = []
 
     def once(tag):
         if route == 'method':
-            if case.get('seed', 0) % 3 == 0:
+            if made:
+                ifg = made[0]         # the same object again (after its data were edited in place)
+            elif case.get('seed', 0) % 3 == 0:
                 # the spacing assigned through the public attribute after construction (dx is a plain attribute of the class)
                 ifg = ctx.call(Interferogram, h)
                 ifg.dx = dxarg
                 ctx.label('dx-assigned-after-construction')
             else:
                 ifg = ctx.call(Interferogram, h, dxarg)
+            if edits:
+                made[:] = [ifg]
             p = ctx.call(ifg.psd)
             ux, uy, P = ctx.call(getattr, p, 'x'), ctx.call(getattr, p, 'y'), p.data
         else:
@@ -386,6 +533,16 @@ def check_psd(case, ctx):
         return ux, uy, P
 
     ux, uy, P = once('')
+    if edits:
+        # the object's public data array is edited in place (same array object) between two psd() calls: the second PSD is that of
+        # the data the object holds now
+        ctx.nt(True)
+        for k_, how in enumerate(edits):
+            ctx.label('inplace-edit:' + edit_in_place(made[0], how, case['seed'] + k_))
+            if not bool(np.all(np.isfinite(made[0].data))):
+                raise RuntimeError('harness: in-place edit %s made the map non-finite' % how)
+            method_psd(ctx, made[0], ':after-inplace-edit', 'psd() -> %s in place on .data -> psd() on the same Interferogram' % '; '.join(edits[:k_ + 1]))
+        return
     if case.get('again', False):
         # the caller owns what was returned: overwrite it in place, ask again, and the answer must be right again
         n_over = 0
@@ -481,6 +638,7 @@ def brms_fields(tier):
         'api': st.sampled_from(['native', 'trapz-only', 'trapezoid-only']),
         'rlayout': U.layouts, 'playout': U.layouts, 'hdtype': st.sampled_from(['f8', 'f8', 'f4', 'i2']),
         'edgeform': st.sampled_from(SCALARS),
+        'edit': st.one_of(st.none(), st.lists(st.sampled_from(EDITS), min_size=1, max_size=2)),
     }
 
 
@@ -628,13 +786,21 @@ def check_brms(case, ctx):
                     'brms:full-band:' + ('nonsquare' if ny != nx else 'square'),
                     'full-band brms^2 = %.12g, window-weighted mean square %.12g, outermost-sample weight %.3g (shape %s dx %g window %s)'
                     % (val['full'], full_target, hi_b - lo_b, shape, dx, win))
+    if route == 'method' and case.get('edit'):
+        # the object's data edited in place after its band-limited RMS was taken: the next values follow the data it holds now
+        ctx.nt(True)
+        for k_, how in enumerate(case['edit']):
+            ctx.label('inplace-edit:' + edit_in_place(ifg, how, case['seed'] + k_))
+            method_band(ctx, ifg, case['q'], case['lo'], case['hi'], form, ':after-inplace-edit', api)
+
 
 # ---- clause 4: total integrated scatter ----------------------------------------------------------------
 def tis_fields(tier):
     return {'seed': U.seeds, 'map': st.sampled_from(MAPS),
             'q': st.integers(0, 10 ** 6), 'limit': st.sampled_from(['edge', 'edge', 'beyond']),
             'angle': st.sampled_from([0.0, 30.0, 60.0]), 'api': st.sampled_from(['native', 'trapz-only', 'trapezoid-only']),
-            'hlayout': U.layouts, 'wvlform': st.sampled_from(SCALARS), 'angleform': st.sampled_from(['scalar', 'scalar', '0d', 'array', 'int'])}
+            'hlayout': U.layouts, 'wvlform': st.sampled_from(SCALARS), 'angleform': st.sampled_from(['scalar', 'scalar', '0d', 'array', 'int']),
+            'edit': st.one_of(st.none(), st.none(), st.lists(st.sampled_from(EDITS), min_size=1, max_size=2))}
 
 
 def strat_tis(tier):
@@ -694,14 +860,25 @@ def check_tis(case, ctx):
         ctx.require(t_lo - slack <= v_ <= t_hi + slack, 'tis:band:' + case['limit'],
                     'TIS(lambda=%.6g um -> upper limit %.6g cy/mm of %.6g, angle %g) = %.12g on a %s map dx=%g; the formula with the band-limited RMS over [0, 1/lambda] gives [%.12g, %.12g]'
                     % (wvl, f_lim, rmax, a_, v_, shape, dx, t_lo, t_hi))
+    for k_, how in enumerate(case.get('edit') or []):
+        # the same object after its data were edited in place
+        ctx.nt(True)
+        ctx.label('inplace-edit:' + edit_in_place(ifg, how, case['seed'] + k_))
+        method_tis(ctx, ifg, case['q'], case['limit'], ang, ':after-inplace-edit', api)
 
 
 # ---- clause 5: synthesis from a PSD model ------------------------------------------------------------
+# requested RMS: usual values, exactly zero (a legitimate request: the surface is identically zero over its valid samples), and the far
+# ends of the floating-point range where the unchanged code is still exact to round-off (measured: 1e-200 .. 1e200; at 1e-300 the
+# samples are subnormal and the RMS is off by 1e-5, so that is not asked for)
+RMS_VALUES = [1.0, 5.0, 0.01, 1234.5, 0.0, 0.0, 0.0, 1e-30, 1e30, 1e-200, 1e200]
+
+
 def synth_fields(tier):
     """everything of a synthesis case except the grid (samples, size)"""
-    return {'rms': st.sampled_from([1.0, 5.0, 0.01, 1234.5]),
+    return {'rms': st.sampled_from(RMS_VALUES), 'rmsform': st.sampled_from(SCALARS),
             'k': st.integers(0, 2 ** 32 - 1), 'model': st.sampled_from(['abc', 'abc', 'ab', 'user-powerlaw', 'partial-ab']),
-            'a': st.sampled_from([1.0, 1e4, 1e-2]), 'b': st.sampled_from([0.01, 0.1, 1.0, 2.5]), 'c': st.sampled_from([1.0, 2.0, 3.3]),
+            'a': st.sampled_from([1.0, 1e4, 1e-2, 1e-30, 1e30]), 'b': st.sampled_from([0.01, 0.1, 1.0, 2.5]), 'c': st.sampled_from([1.0, 2.0, 3.3, 0.0, 8.0]),
             'mask': st.sampled_from(['none', 'circle-bool', 'circle-int', 'random-bool', 'half-float', 'circle-uint8', 'random-f32', 'single-bool', 'row-bool']),
             'mseed': U.seeds,
             'mlayout': U.layouts, 'twice': st.sampled_from([False, False, True]),
@@ -712,7 +889,7 @@ def strat_synth(tier):
     N = {'quick': 40, 'thorough': 96}[tier]
     awkward = {'quick': [4, 5, 8, 9, 16, 31, 32, 97, 127, 128], 'thorough': [4, 5, 8, 9, 16, 31, 32, 97, 127, 128, 257, 263, 300]}[tier]
     return st.fixed_dictionaries(dict(synth_fields(tier), samples=st.one_of(st.integers(4, N), st.sampled_from(awkward)),
-                                      size=st.sampled_from([1.0, 25.4, 100.0, 0.35])))
+                                      size=st.sampled_from([1.0, 25.4, 100.0, 0.35, 1e-3, 1e4])))
 
 
 def check_synth(case, ctx):
@@ -759,18 +936,24 @@ def check_synth(case, ctx):
     ctx.nt(mask is not None or n % 2 == 1 or case['model'] == 'ab')
     want_valid = np.ones((n, n), dtype=bool) if mask is None else (np.asarray(keep_mask) != 0)
 
+    rmsform = case.get('rmsform', 'float')
+    ctx.label('rms:' + ('zero' if R == 0 else 'extreme' if not 1e-3 <= R <= 1e4 else 'usual'))
+
     def render(k, rms_):
+        rarg = scalar_form(rms_, rmsform)
+        ctx.label('rms-as:' + type(rarg).__name__)
         state = npr.get_state()
         try:
             npr.seed(k)     # synthesize_surface_from_psd draws its random phase with np.random.rand
             if case['route'] == 'function':
-                x, y, z = ctx.call(render_synthetic_surface, size, n, rms=rms_, mask=mask, psd_fcn=fcn, **kw)
+                x, y, z = ctx.call(render_synthetic_surface, size, n, rms=rarg, mask=mask, psd_fcn=fcn, **kw)
             else:
-                i = ctx.call(Interferogram.render_from_psd, size, n, rms=rms_, mask=mask, psd_fcn=fcn, **kw)
+                i = ctx.call(Interferogram.render_from_psd, size, n, rms=rarg, mask=mask, psd_fcn=fcn, **kw)
                 x, y, z = None, None, i.data
         finally:
             npr.set_state(state)
         args_unchanged(ctx, 'render_synthetic_surface', mask=(mask, keep_mask))
+        scalar_unchanged(ctx, 'render_synthetic_surface', 'rms', rarg, rms_)
         return x, y, z
 
     def verify(z, rms_, tag=''):
@@ -779,8 +962,15 @@ def check_synth(case, ctx):
         fin = np.isfinite(z)
         ctx.require(bool(np.array_equal(fin, want_valid)), 'synth:mask' + tag,
                     '%d samples finite where mask == 0, %d non-finite where mask != 0' % (int((fin & ~want_valid).sum()), int((~fin & want_valid).sum())))
-        got = float(np.sqrt(np.mean(z[fin] ** 2)))
-        ctx.require(abs(got - rms_) <= 1e-9 * rms_, 'synth:rms' + tag,
+        if rms_ == 0:
+            # a requested RMS of exactly 0 is met only by a surface that is 0 at every valid sample
+            got = float(np.max(np.abs(z[fin])))
+            ctx.require(got == 0.0, 'synth:rms:zero-requested' + tag,
+                        'requested RMS 0 (given as %s): the %d valid samples reach |z| = %.6g (samples=%d, mask=%s, model=%s)' % (rmsform, int(fin.sum()), got, n, mk, case['model']))
+            return
+        # formed on z / rms so that neither 1e200**2 overflows nor 1e-200**2 underflows inside the oracle
+        got = rms_ * float(np.sqrt(np.mean((z[fin].astype(np.float64) / rms_) ** 2)))
+        ctx.require(abs(got - rms_) <= 1e-9 * rms_, 'synth:rms' + (':extreme-request' if not 1e-3 <= rms_ <= 1e4 else '') + tag,
                     'requested RMS %.12g, RMS of the %d valid samples %.12g (samples=%d, mask=%s, model=%s)' % (rms_, int(fin.sum()), got, n, mk, case['model']))
         ctx.require(float(np.ptp(z[fin])) > 0 or int(fin.sum()) == 1, 'synth:flat' + tag, 'synthesised surface is constant')
 
@@ -790,11 +980,12 @@ def check_synth(case, ctx):
         # results must not alias library state or each other: a second synthesis (other random phase, other RMS) on the same grid
         # leaves the arrays of the first one alone and is right itself
         kept = [None if a is None else np.array(a, copy=True) for a in (x, y, z)]
-        x2, y2, z2 = render((case['k'] + 1) % 2 ** 32, 2.0 * R)
+        R2 = 2.0 * R if R > 0 else [0.0, 1.5][case['k'] % 2]      # after a zero request: zero again, or a usual one
+        x2, y2, z2 = render((case['k'] + 1) % 2 ** 32, R2)
         for nm, a, b in zip('xyz', (x, y, z), kept):
             if a is not None and not np.array_equal(np.asarray(a), b, equal_nan=True):
                 ctx.fail('synth:result-overwritten', 'array %s returned by the first synthesis changed during the second one (samples=%d size=%g)' % (nm, n, size))
-        verify(z2, 2.0 * R, ':second-call')
+        verify(z2, R2, ':second-call')
     # not asserted: the x / y vectors (and render_from_psd's dx) that come with the surface - the statement is about the RMS only;
     # for odd `samples` they are spaced by size/(samples-1) * samples/(samples-1) on the pinned tree (fs is taken from -2*nu[0])
 
@@ -810,7 +1001,7 @@ def strat_grid_op(tier):
     orient = st.sampled_from(['nn', 'nn', 'nm', 'mn'])
     table = {
         'synth': st.fixed_dictionaries({'op': st.just('synth'), 'case': st.fixed_dictionaries(synth_fields(tier))}),
-        'render_psd': st.fixed_dictionaries({'op': st.just('render_psd'), 'rms': st.sampled_from([1.0, 5.0, 0.01]), 'k': st.integers(0, 2 ** 32 - 1),
+        'render_psd': st.fixed_dictionaries({'op': st.just('render_psd'), 'rms': st.sampled_from([1.0, 5.0, 0.01, 0.0, 1e-30, 1e30]), 'k': st.integers(0, 2 ** 32 - 1),
                                              'model': st.sampled_from(['abc', 'ab']), 'a': st.sampled_from([1.0, 1e4]), 'b': st.sampled_from([0.1, 1.0, 2.5]),
                                              'c': st.sampled_from([1.0, 2.0, 3.3])}),
         'psd': st.fixed_dictionaries({'op': st.just('psd'), 'orient': orient, 'case': st.fixed_dictionaries(psd_fields(tier))}),
@@ -899,7 +1090,8 @@ class GridModel:
         U.check_shape(z, (n, n), 'synth', 'surface')
         ctx.require(bool(np.all(np.isfinite(z))), 'synth:mask', 'unmasked synthesis has non-finite samples')
         got = float(np.sqrt(np.mean(z ** 2)))
-        ctx.require(abs(got - op['rms']) <= 1e-9 * op['rms'], 'synth:rms', 'requested RMS %.12g, got %.12g (samples=%d)' % (op['rms'], got, n))
+        ctx.require(abs(got - op['rms']) <= 1e-9 * op['rms'], 'synth:rms' + (':zero-requested' if op['rms'] == 0 else ''),
+                    'requested RMS %.12g, got %.12g (samples=%d)' % (op['rms'], got, n))
         dx = i.dx
         ctx.require(np.ndim(dx) == 0 and np.isfinite(dx) and float(dx) > 0, 'render_from_psd:dx', 'render_from_psd reports dx=%r' % (dx,))
         dx = float(dx)
@@ -911,13 +1103,133 @@ class GridModel:
         U.check_equal(np.asarray(i.data), z, 'psd:argument-modified', 'Interferogram.psd() changed the data of the object')
 
 
+# ---- clause 7: one Interferogram object through its life -----------------------------------------------
+def strat_obj(tier):
+    return st.fixed_dictionaries({'shape': shape_strategy(tier), 'dx': dx_strategy, 'seed': U.seeds, 'map': st.sampled_from(MAPS),
+                                  'hdtype': st.sampled_from(['f8', 'f8', 'f8', 'f4', 'i2']), 'hlayout': U.layouts, 'amp': st.sampled_from([1.0, 1e-3, 250.0])})
+
+
+def strat_obj_op(tier):
+    q = st.integers(0, 10 ** 6)
+    table = {
+        'psd': st.fixed_dictionaries({'op': st.just('psd')}),
+        'brms': st.fixed_dictionaries({'op': st.just('brms'), 'q': st.tuples(q, q, q).map(list), 'lo': st.sampled_from(['zero', 'edge', 'edge']),
+                                       'hi': st.sampled_from(['edge', 'edge', 'none', 'beyond']), 'form': st.sampled_from(['freq', 'period'])}),
+        'tis': st.fixed_dictionaries({'op': st.just('tis'), 'q': q, 'limit': st.sampled_from(['edge', 'edge', 'beyond']), 'angle': st.sampled_from([0.0, 30.0, 60.0])}),
+        'edit': st.fixed_dictionaries({'op': st.just('edit'), 'how': st.sampled_from(EDITS), 'seed': U.seeds}),
+        'rebind': st.fixed_dictionaries({'op': st.just('rebind'), 'seed': U.seeds, 'map': st.sampled_from(MAPS), 'hlayout': U.layouts}),
+        'set_dx': st.fixed_dictionaries({'op': st.just('set_dx'), 'dx': dx_strategy, 'dxform': st.sampled_from(SCALARS)}),
+        'method': st.fixed_dictionaries({'op': st.just('method'), 'name': st.sampled_from(['remove_piston', 'remove_tiptilt', 'fill'])}),
+        'scribble': st.fixed_dictionaries({'op': st.just('scribble')}),
+        'read_stats': st.fixed_dictionaries({'op': st.just('read_stats')}),
+    }
+    weighted = ['psd'] * 4 + ['brms'] * 3 + ['tis'] + ['edit'] * 5 + ['rebind', 'set_dx', 'method', 'scribble', 'read_stats']
+    return st.sampled_from(weighted).flatmap(lambda k: table[k])
+
+
+class ObjectModel:
+    """one Interferogram through its life: spectral calls (psd / bandlimited_rms / total_integrated_scatter) interleaved with what users do
+    to the object between them - numpy edits of the public data array in place, a new array or a new dx assigned through the public
+    attributes, the object's own in-place methods, overwriting a PSD that was returned earlier.  Every spectral call is checked against
+    the oracle for the data and dx the object holds at that moment."""
+
+    SPECTRAL = ('psd', 'brms', 'tis')
+
+    def __init__(self, init, ctx):
+        from prysm.interferogram import Interferogram
+        self.ctx = ctx
+        self.shape = tuple(init['shape'])
+        h = U.relayout(cast_map(make_map(init['map'], init['seed'], self.shape, init['amp']), init['hdtype']), init['hlayout'])
+        self.ifg = ctx.call(Interferogram, h, init['dx'])
+        self.done = []
+        self.last_psd = None
+        shape_labels(ctx, self.shape)
+        ctx.label('obj:hdtype:' + init['hdtype'])
+
+    def invariant(self):
+        pass
+
+    def apply(self, op):
+        ctx, k = self.ctx, op['op']
+        ctx.label('life:' + k)
+        tag = ''
+        if k in self.SPECTRAL:
+            # what happened to the object since its previous spectral call
+            since, seen = [], False
+            for d in reversed(self.done):
+                if d in self.SPECTRAL:
+                    seen = True
+                    break
+                since.append(d)
+            if seen and since:
+                ctx.nt(True)
+                for d in set(since):
+                    ctx.label('life:spectral-call-after:' + d)
+                if 'edit' in since:
+                    tag = ':after-inplace-edit'
+                elif 'rebind' in since or 'set_dx' in since:
+                    tag = ':after-attribute-assignment'
+                elif 'method' in since:
+                    tag = ':after-inplace-method'
+        getattr(self, 'op_' + k)(op, tag)
+        self.done.append(k)
+
+    def _finite(self, what):
+        if not bool(np.all(np.isfinite(np.asarray(self.ifg.data, dtype=np.float64)))):
+            raise RuntimeError('harness: %s made the map non-finite' % what)
+
+    def op_psd(self, op, tag):
+        self.last_psd = method_psd(self.ctx, self.ifg, tag, 'Interferogram.psd() after %s' % (self.done[-4:],))
+
+    def op_brms(self, op, tag):
+        method_band(self.ctx, self.ifg, op['q'], op['lo'], op['hi'], op['form'], tag)
+
+    def op_tis(self, op, tag):
+        method_tis(self.ctx, self.ifg, op['q'], op['limit'], op['angle'], tag)
+
+    def op_edit(self, op, tag):
+        self.ctx.label('inplace-edit:' + edit_in_place(self.ifg, op['how'], op['seed']))
+        self._finite('in-place edit ' + op['how'])
+
+    def op_rebind(self, op, tag):
+        """a new array of the same shape assigned to the public attribute"""
+        self.ifg.data = U.relayout(make_map(op['map'], op['seed'], self.shape), op['hlayout'])
+
+    def op_set_dx(self, op, tag):
+        self.ifg.dx = scalar_form(op['dx'], op['dxform'])
+
+    def op_method(self, op, tag):
+        """the object's own in-place methods (they keep a finite map finite); integer maps only take fill()"""
+        name = op['name'] if np.asarray(self.ifg.data).dtype.kind == 'f' else 'fill'
+        self.ctx.label('life:method:' + name)
+        self.ctx.call(getattr(self.ifg, name))
+        self._finite(name)
+
+    def op_scribble(self, op, tag):
+        """the PSD object that was returned earlier belongs to the caller: overwrite its arrays"""
+        p = self.last_psd
+        if p is None:
+            return
+        for a in (p.data, p.x, p.y):
+            if isinstance(a, np.ndarray) and a.flags.writeable:
+                a[...] = -7.0
+        self.ctx.label('life:scribbled-on-returned-psd')
+
+    def op_read_stats(self, op, tag):
+        """history only: the scalar statistics of the object are read (nothing is asserted about them)"""
+        for name in ('rms', 'pv', 'std', 'shape', 'size'):
+            self.ctx.call(getattr, self.ifg, name)
+
+
 CLAUSES = [
     HypClause('psd_normalisation', strat_psd, check_psd, examples={'quick': 600, 'thorough': 3000}, shards={'quick': 2, 'thorough': 8}),
     HypClause('psd_sinusoid', strat_sinus, check_sinus, examples={'quick': 600, 'thorough': 3000}, shards={'quick': 2, 'thorough': 6}),
     HypClause('bandlimited_rms', strat_brms, check_brms, examples={'quick': 500, 'thorough': 2500}, shards={'quick': 3, 'thorough': 10}),
     HypClause('total_integrated_scatter', strat_tis, check_tis, examples={'quick': 400, 'thorough': 2000}, shards={'quick': 1, 'thorough': 4}),
-    HypClause('synthesis_rms', strat_synth, check_synth, examples={'quick': 400, 'thorough': 2000}, shards={'quick': 1, 'thorough': 4}),
+    HypClause('synthesis_rms', strat_synth, check_synth, examples={'quick': 600, 'thorough': 2500}, shards={'quick': 1, 'thorough': 4}),
     HypClause('psd_large', strat_psd_large, check_psd, examples={'quick': 48, 'thorough': 400}, shards={'quick': 2, 'thorough': 8}),
     MachineClause('grid_history', GridModel, strat_grid, strat_grid_op, steps={'quick': 8, 'thorough': 12},
                   examples={'quick': 300, 'thorough': 1500}, shards={'quick': 3, 'thorough': 8}),
+    MachineClause('object_history', ObjectModel, strat_obj, strat_obj_op, steps={'quick': 10, 'thorough': 16},
+                  examples={'quick': 300, 'thorough': 1200}, shards={'quick': 2, 'thorough': 8}),
 ]
